@@ -21,7 +21,7 @@ ASSUMPTIONS = ['Docs are left out of the specs (renames would have to rewrite do
                'The documented null / empty-struct ambiguity of nullable struct-valued members is normalised.']
 
 C07_CFG = dict(omitted=False, schema=None, docs=False, annotations=False, examples=False, patches=False,
-               max_ns=3, max_types=6, max_routes=2)
+               max_ns=3, max_types=6, max_routes=2, union_chain_bias=True)
 
 NEW_SNAKE = ['zz_new', 'zz_extra', 'zz_added', 'zz_more']
 
@@ -106,7 +106,8 @@ class Edits:
         unions = [(n, d) for n, d in self.idx.types(('union',)) if self.idx.is_open(n, d)]
         if not unions:
             return False
-        n, d = g.choice(unions)
+        deep = [(n_, d_) for n_, d_ in unions if len(self.idx.chain(n_, d_)) >= 2]
+        n, d = g.choice(deep if deep and g.p(50) else unions)
         name = self.fresh('zz_tag')
         if name in self.family_names(n, d):
             return False
